@@ -40,35 +40,42 @@ def oneElement (s : Schema) (ty : LtType) : Bool :=
   | .structT _ => true
   | k => (customM s ty).isSome || isSimple k
 
+/-- one field of a struct -/
+def rtField (s : Schema) (recur : Bool → LtType → V → Option V) (p : LtField × V) : Option V :=
+  if p.1.attr then (if p.1.omitempty then none else leafRT s p.1.typ p.2)
+  else recur p.1.omitempty p.1.typ p.2
+
+/-- the non-pointer part of `rtOf` -/
+def rtRest (s : Schema) (recur : Bool → LtType → V → Option V) (om : Bool) (ty : LtType) (k : Kind) (v : V) :
+    Option V :=
+  match customM s ty with
+  | some _ => leafRT s ty v
+  | none =>
+    match k, v with
+    | .slice t', .list vs =>
+      -- one element per item; an item that `omitempty` would drop cannot be carried
+      if vs.any (fun e => om && isEmptyValue (kindOf s 8 t') e) || !oneElement s t' then none
+      else (optionOfAll (vs.map (recur false t'))).map V.list
+    | .structT n, .struct fs =>
+      (match s.fieldsOf n with
+       | none => none
+       | some fields =>
+         let dfs := dataFields fields
+         if dfs.length ≠ fs.length then none else
+         (optionOfAll ((dfs.zip fs).map (rtField s recur))).map V.struct)
+    | _, _ => if isSimple k then leafRT s ty v else none
+
 /-- the value a decoder returns for the encoding of `v`, computed leaf by leaf along the same
     walk as `marshalTrees`; `none` when some leaf does not survive its codec or the value has a
     shape the format cannot carry -/
 def rtOf (s : Schema) : Nat → Bool → LtType → V → Option V
   | 0, _, _, _ => none
   | fuel + 1, om, ty, v =>
-    let k := kindOf s 8 ty
-    if om && isEmptyValue k v then some (zeroOf s 8 ty)          -- omitted: the field keeps its zero value
-    else match k, v with
+    if om && isEmptyValue (kindOf s 8 ty) v then some (zeroOf s 8 ty)     -- omitted: the field keeps its zero value
+    else match kindOf s 8 ty, v with
     | .ptr _, .nil => some .nil
     | .ptr t', .ptr v' => if oneElement s t' then (rtOf s fuel false t' v').map V.ptr else none
-    | _, _ =>
-      match customM s ty with
-      | some _ => leafRT s ty v
-      | none =>
-        match k, v with
-        | .slice t', .list vs =>
-          -- one element per item; an item that `omitempty` would drop cannot be carried
-          if vs.any (fun e => om && isEmptyValue (kindOf s 8 t') e) || !oneElement s t' then none
-          else (optionOfAll (vs.map (rtOf s fuel false t'))).map V.list
-        | .structT n, .struct fs =>
-          (match s.fieldsOf n with
-           | none => none
-           | some fields =>
-             let dfs := dataFields fields
-             if dfs.length ≠ fs.length then none else
-             (optionOfAll ((dfs.zip fs).map fun (p : LtField × V) =>
-                if p.1.attr then (if p.1.omitempty then none else leafRT s p.1.typ p.2)
-                else rtOf s fuel p.1.omitempty p.1.typ p.2)).map V.struct)
-        | _, _ => if isSimple k then leafRT s ty v else none
+    | .ptr _, _ => none
+    | k, v => rtRest s (rtOf s fuel) om ty k v
 
 end TrackVerif.LT
